@@ -187,3 +187,31 @@ Proof.
   { apply Hu; [cbn; tauto|cbn; tauto|reflexivity|reflexivity|reflexivity]. }
   discriminate E.
 Qed.
+
+(** ** a semantic class on which the hypothesis holds: program-derived registries of the fragment
+    of [C04_program_untouched_partial] (Proofs/TeqComplete.v): all entries carrying one namespaced
+    path are judged equal, so [types_equal] is trivially an equivalence on every family *)
+From V Require Import Model.Program Model.ProgramSkel Model.ProgramTeq Proofs.TeqComplete.
+
+Theorem program_teq_equiv defs L r :
+  RegistryOf defs L r ->
+  (forall sd, In sd defs -> teq_program_okb sd = true /\ forall lsb, sd_path sd <> order_path_of lsb) ->
+  (forall d1 d2 sd1 sd2,
+     nth_error defs d1 = Some sd1 -> nth_error defs d2 = Some sd2 -> sd_path sd1 = sd_path sd2 -> d1 = d2) ->
+  (forall id d args sd,
+     L id = Some (SApp d args) -> nth_error defs d = Some sd ->
+     instantiation_cf defs sd args = true /\ map canon args = args) ->
+  teq_equiv_on_families r.
+Proof.
+  intros HR Hdefs Hpaths Hinst.
+  assert (Heq : forall p i j, entry_at r i p -> entry_at r j p -> namespace p <> [] ->
+                              types_equal_res r i j = Ok true).
+  { intros p i j (ei & Hi & Hpi) (ej & Hj & Hpj) Hns.
+    assert (Ri : resolve r i = Some (snd ei)) by (unfold resolve; rewrite Hi; destruct ei; reflexivity).
+    assert (Rj : resolve r j = Some (snd ej)) by (unfold resolve; rewrite Hj; destruct ej; reflexivity).
+    apply (namespaced_equal defs L r HR Hdefs Hpaths Hinst i j (snd ei) (snd ej) Ri Rj).
+    - rewrite Hpi. exact Hns.
+    - congruence. }
+  intros p i j Hi Hj Hns. split; [exists true; apply (Heq p); assumption|].
+  split; [intros _; apply (Heq p); assumption|]. intros k Hk _ _. apply (Heq p); assumption.
+Qed.
